@@ -190,6 +190,138 @@ func vtcHeaderClass(s []byte) string {
 	return "header-branch-with-value"
 }
 
+
+// vtcMaxLenPrefix walks s along the node grammar and returns the largest SCALE length prefix a decoder
+// would meet (value length, child lengths).  The SCALE byte-slice decoder allocates the announced length
+// before reading (C12's subject); strings announcing more than 64 KiB are left to C12 so that this
+// harness does not spend its budget allocating gigabytes.
+func vtcMaxLenPrefix(s []byte) (max uint64) {
+	pos := 0
+	rd := func() (byte, bool) {
+		if pos >= len(s) {
+			return 0, false
+		}
+		pos++
+		return s[pos-1], true
+	}
+	compact := func() (uint64, bool) {
+		b, ok := rd()
+		if !ok {
+			return 0, false
+		}
+		switch b & 3 {
+		case 0:
+			return uint64(b >> 2), true
+		case 1:
+			c, ok := rd()
+			if !ok {
+				return 0, false
+			}
+			return uint64(b>>2) | uint64(c)<<6, true
+		case 2:
+			v := uint64(b >> 2)
+			for i := 0; i < 3; i++ {
+				c, ok := rd()
+				if !ok {
+					return 0, false
+				}
+				v |= uint64(c) << (6 + 8*uint(i))
+			}
+			return v, true
+		}
+		return 1 << 62, true
+	}
+	h, ok := rd()
+	if !ok || h < 16 {
+		return 0
+	}
+	var mask byte
+	branch, inlineVal := false, false
+	switch {
+	case h < 32:
+		mask, branch = 15, true
+	case h < 64:
+		mask = 31
+	case h < 128:
+		mask, inlineVal = 63, true
+	case h < 192:
+		mask, branch = 63, true
+	default:
+		mask, branch, inlineVal = 63, true, true
+	}
+	pk := int(h & mask)
+	if h&mask == mask {
+		for {
+			c, ok := rd()
+			if !ok {
+				return 0
+			}
+			pk += int(c)
+			if c < 255 || pk > 70000 {
+				break
+			}
+		}
+	}
+	pos += (pk + 1) / 2
+	var bm [2]byte
+	if branch {
+		for i := range bm {
+			c, ok := rd()
+			if !ok {
+				return max
+			}
+			bm[i] = c
+		}
+	}
+	take := func() bool {
+		v, ok := compact()
+		if !ok {
+			return false
+		}
+		if v > max {
+			max = v
+		}
+		if v > 1<<20 {
+			return false
+		}
+		pos += int(v)
+		return true
+	}
+	if inlineVal {
+		if !take() {
+			return max
+		}
+	} else if !(branch && h >= 128) {
+		pos += 32
+	}
+	if branch {
+		for i := 0; i < 16; i++ {
+			if bm[i/8]>>(uint(i)%8)&1 == 1 {
+				start := pos
+				if !take() {
+					return max
+				}
+				// an inlined child is decoded recursively by the in-memory decoder
+				if n := pos - start; n > 1 && n <= 33 && pos <= len(s) {
+					cs := s[start:pos]
+					skip := 1
+					if cs[0]&3 == 1 {
+						skip = 2
+					}
+					if len(cs) > skip && len(cs)-skip < 32 {
+						if m := vtcMaxLenPrefix(cs[skip:]); m > max {
+							max = m
+						}
+					}
+				}
+			}
+		}
+	}
+	return max
+}
+
+const vtcMaxAnnounced = 1 << 16
+
 func vtcDecodeGuarded(s []byte) (n *Node, err error, pm string, hung bool) {
 	pm, hung = vGuard(5*time.Second, func() { n, err = Decode(bytes.NewReader(s)) })
 	return
@@ -202,11 +334,12 @@ func TestVerifTrieCodecNode(t *testing.T) {
 	behs := vLoad(t, vIn(t, "cases.txt"))
 	res.Behaviours = len(behs)
 	rng := rand.New(rand.NewSource(vSeed()))
-	nmut := 20
+	nmut := 8
 	if vThorough() {
 		nmut = 400
 	}
 	randomMut := 0
+	skipped := 0
 	var encs [][]byte
 	for _, b := range behs {
 		for si, raw := range b.Steps {
@@ -323,6 +456,10 @@ func TestVerifTrieCodecNode(t *testing.T) {
 				_ = json.Unmarshal(c.Enc, &encFlag)
 				s := c.S.Bytes()
 				hc := vtcHeaderClass(s)
+				if vtcMaxLenPrefix(s) > vtcMaxAnnounced {
+					skipped++
+					continue
+				}
 				res.Case("dec", fmt.Sprintf("%s|%d|%v", hc, len(s), encFlag))
 				n, err, pm, hung := vtcDecodeGuarded(s)
 				res.Cmp()
@@ -372,7 +509,10 @@ func TestVerifTrieCodecNode(t *testing.T) {
 				p := rng.Intn(len(m))
 				m = append(m[:p], append([]byte{byte(rng.Intn(256))}, m[p:]...)...)
 			}
-			// lengths that would make the SCALE decoder allocate gigabytes are C12's subject, not this one
+			if vtcMaxLenPrefix(m) > vtcMaxAnnounced {
+				skipped++
+				continue
+			}
 			randomMut++
 			_, _, pm, hung := vtcDecodeGuarded(m)
 			res.Cmp()
@@ -391,6 +531,8 @@ func TestVerifTrieCodecNode(t *testing.T) {
 		}
 	}
 	res.Extra["random_mutations_node"] = randomMut
+	res.Extra["skipped_oversized_length_prefix_node"] = skipped
+	res.Notes = append(res.Notes, fmt.Sprintf("pkg/trie/node: %d byte strings announcing a value/child length above 64 KiB were not fed to the decoder (allocation before read is C12's subject)", skipped))
 }
 
 func vtcInts(b []byte) []int {
